@@ -195,22 +195,37 @@ fn disk_case(rng: &mut Rng, fs: Fs, variant: usize, obs: &mut Obs) -> String {
     let hier = fs == Fs::Prodos || fs == Fs::Fat;
     let mut dirs: Vec<String> = vec!["".to_string()];
     if hier {
-        for d in ["SUB1", "SUB2"] { if disk.create(d).is_ok() { dirs.push(d.to_string()); } }
-        if disk.create("SUB1/DEEP").is_ok() { dirs.push("SUB1/DEEP".to_string()); }
+        for d in ["SUB1", "SUB2", "SUB3", "SUB1/DEEP", "SUB1/DEEP2"] { if disk.create(d).is_ok() { dirs.push(d.to_string()); } }
     }
-    let nfiles = rng.range(6, 9);
+    // CP/M: at least six different user areas hold files (the `users` list of stat, catalogs per user)
+    let mut users: Vec<usize> = Vec::new();
+    if fs == Fs::Cpm {
+        let n = rng.range(6, 9);
+        while users.len() < n { let u = rng.below(16); if !users.contains(&u) { users.push(u); } }
+    }
+    // every directory (every rendered list) gets at least six entries
+    let mut plan: Vec<String> = Vec::new();
+    let mut i = 0;
+    for d in &dirs {
+        let per_dir = if hier { 6 } else { rng.range(8, 11) };
+        for _ in 0..per_dir {
+            let base = fname(fs, i, d);
+            plan.push(if fs == Fs::Cpm { format!("{}:{}", users[i % users.len()], base) } else { base });
+            i += 1;
+        }
+    }
+    // shuffle the creation order so that directory order is not creation order by construction
+    for k in (1..plan.len()).rev() { let j = rng.below(k + 1); plan.swap(k, j); }
     let mut live: Vec<String> = Vec::new();
-    for i in 0..nfiles {
-        let dir = rng.pick(&dirs).clone();
-        let path = fname(fs, i, &dir);
-        let len = *rng.pick(&[1usize, 100, 300, 700, 1500, 3000]);
+    for (i, path) in plan.iter().enumerate() {
+        let len = if hier { *rng.pick(&[1usize, 100, 300, 700]) } else { *rng.pick(&[1usize, 100, 300, 700, 1500, 3000]) };
         let ok = match rng.below(3) {
-            0 if fs != Fs::Pascal => disk.bsave(&path, &rng.bytes(len), if fs == Fs::Cpm || fs == Fs::Fat { None } else { Some(0x2000 + i) }, None).is_ok(),
-            1 => { let t = gen_text(rng, 1 + len / 40, 38).replace('\\', "/").replace('"', "'"); disk.write_text(&path, &t).is_ok() }
-            _ => { let mut f = match disk.new_fimg(None, true, &path) { Ok(f) => f, Err(_) => continue }; f.pack_raw(&rng.bytes(len)).is_ok() && disk.put(&f).is_ok() }
+            0 if fs != Fs::Pascal => disk.bsave(path, &rng.bytes(len), if fs == Fs::Cpm || fs == Fs::Fat { None } else { Some(0x2000 + i) }, None).is_ok(),
+            1 => { let t = gen_text(rng, 1 + len / 40, 38).replace('\\', "/").replace('"', "'"); disk.write_text(path, &t).is_ok() }
+            _ => { let mut f = match disk.new_fimg(None, true, path) { Ok(f) => f, Err(_) => continue }; f.pack_raw(&rng.bytes(len)).is_ok() && disk.put(&f).is_ok() }
         };
         desc += &format!(" put:{}:{}", path, ok);
-        if ok { live.push(path); }
+        if ok { live.push(path.clone()); }
     }
     // random access text goes through Records::update_fimg
     if fs == Fs::Dos33 || fs == Fs::Prodos {
@@ -226,6 +241,8 @@ fn disk_case(rng: &mut Rng, fs: Fs, variant: usize, obs: &mut Obs) -> String {
         desc += &format!(" del:{}:{}", victim, disk.delete(&victim).is_ok());
         let r = live[rng.below(live.len())].clone();
         let newname = match fs { Fs::Pascal => "RENAMED.TEXT", Fs::Cpm | Fs::Fat => "RENAMED.TXT", _ => "RENAMED" };
+        let newname = match (fs, r.find(':')) { (Fs::Cpm, Some(p)) => format!("{}{}", &r[..p + 1], newname), _ => newname.to_string() };
+        let newname = newname.as_str();
         if disk.rename(&r, newname).is_ok() {
             let parent = match r.rfind('/') { Some(p) => r[..p + 1].to_string(), None => "".to_string() };
             live.retain(|x| *x != r);
@@ -256,8 +273,20 @@ fn disk_case(rng: &mut Rng, fs: Fs, variant: usize, obs: &mut Obs) -> String {
             Err(_) => ob(obs, "get-fimg-json", b"<err>".to_vec()),
         }
     }
+    // several metadata keys (those the container does not know are refused; the outcome is part of the observation)
+    let kp = |a: &str, b: &str, c: &str| vec![a.to_string(), b.to_string(), c.to_string()];
+    let mut meta_res = String::new();
+    for (k, v) in [(kp("woz2", "meta", "title"), "Determinism"), (kp("woz2", "meta", "publisher"), "a2v"), (kp("woz2", "meta", "developer"), "c20"),
+        (kp("woz2", "meta", "language"), "English"), (kp("woz2", "meta", "requires_ram"), "64K"), (kp("woz2", "meta", "notes"), "six keys"),
+        (kp("woz2", "meta", "side"), "Disk 1, Side A"), (kp("woz2", "info", "creator"), "a2v c20"), (kp("woz1", "info", "creator"), "a2v c20"),
+        (kp("2mg", "header", "comment"), "c20 comment"), (vec!["2mg".to_string(), "comment".to_string()], "c20 comment"),
+        (vec!["imd".to_string(), "comment".to_string()], "c20 comment"), (vec!["td0".to_string(), "comment".to_string()], "c20 comment")] {
+        meta_res += if disk.get_img().put_metadata(&k, &json::JsonValue::String(v.to_string())).is_ok() { "1" } else { "0" };
+    }
+    ob(obs, "metadata", meta_res.into_bytes());
     ob_res(obs, "geometry", disk.get_img().export_geometry(None), |s| s.into_bytes());
     ob(obs, "metadata", disk.get_img().get_metadata(None).into_bytes());
+    ob(obs, "metadata", disk.get_img().get_metadata(Some(2)).into_bytes());
     ob(obs, "img-bytes", disk.get_img().to_bytes());
     desc
 }
